@@ -1,7 +1,7 @@
 (* Entry.v — single extracted entry point [run]: request = VList [VStr name; arg].
    All marshalling is done here in Gallina so that ocaml/driver.ml stays generic. *)
 From Coq Require Import ZArith List Bool String Ascii.
-From Verif Require Import PyStr Normalize NormalizeGen Util UtilGen Toc TocGen Footnote FootnoteGen Cli CliGen StoreGen Rx UnicodeGen RxGen Scanner RefLinks Tmpl HtmlRender TmplGen CodeSpan RxSub RxCost Inline InlineGen Block BlockGen Doc HtmlDoc Table MdRender MdDoc.
+From Verif Require Import PyStr Normalize NormalizeGen Util UtilGen Toc TocGen Footnote FootnoteGen Cli CliGen StoreGen Rx UnicodeGen RxGen Scanner RefLinks Tmpl HtmlRender TmplGen CodeSpan RxSub RxCost Inline InlineGen Block BlockGen Doc HtmlDoc Table MdRender MdDoc RstDoc.
 Import ListNotations.
 Open Scope Z_scope.
 
@@ -244,6 +244,11 @@ Definition md_x (hw : bool) (s : str) : res str :=
   | _, _ => Exn
   end.
 
+(* create_markdown(renderer='rst', hard_wrap=hw)(s): the core configuration with the RST renderer *)
+Definition rst_x (hw : bool) (s : str) : res str :=
+  do ast <- doc_parse_x false hw s;
+  match rst_doc U (is_ws T) rx_util__strip_end_re ast with Some out => Ok out | None => Exn end.
+
 (* the table plugin on the regenerated patterns *)
 Definition table_cfg : tcfg :=
   {| t_uni := U; t_table := rx_plugins_table__TABLE_PATTERN; t_nptable := rx_plugins_table__NP_TABLE_PATTERN;
@@ -447,6 +452,15 @@ Definition run_named (name : str) (arg : pval) : pval :=
     match arg with
     | VList [VStr s; VBool hw] =>
       match md_x hw s with
+      | Ok out => VStr out
+      | Exn => VErr "exception"
+      | Fuel => VErr "fuel"
+      end
+    | _ => VErr "arg" end
+  else if is_name name "rst" then
+    match arg with
+    | VList [VStr s; VBool hw] =>
+      match rst_x hw s with
       | Ok out => VStr out
       | Exn => VErr "exception"
       | Fuel => VErr "fuel"
